@@ -8,4 +8,5 @@ int san_nevents(void);
 const san_event_t *san_event(int i);
 void san_reset(void);
 void san_tsan_ignore(int on);
+extern void (*san_fatal_cb)(const san_event_t *e);
 #endif
